@@ -179,7 +179,9 @@ template <class Aut> static hist::StepResult run(const std::vector<int>& h, Ctx&
   for (size_t n = 0; n < h.size(); n++) { bool last = n + 1 == h.size(); if (last) R.prefixKey = keyOf(s);
     const Op& o = menu()[h[n]]; bool en = true, big = false; Slot<Aut>&si = s[o.i], &sj = s[o.j], &sk = s[o.k];
     auto store = [&](Slot<Aut>& dst, Aut&& res) { ref::TA v = numModel(res); if (v.states().size() > 8 || v.rules.size() > 14) { big = true; return v; } if (dst.a) *dst.a = res; else dst.a.reset(new Aut(res)); dst.m = v; return v; };
-    auto sem = [&](bool ok, const char* cls, const std::string& d) { if (last && !big && !ok) c.viol(enc + "/" + KN[o.kind], cls, {"in_history"}, d); };
+    // the comparison with the reference is evaluated only for results inside the explored world (a result beyond 8 states / 14 rules sets `big`; the reference
+    // inclusion is limited to 62 macro-state bits and must not even be asked about such a result: its "too many states" exception was once reported as a library exception)
+#define sem(cond, cls, d) do { if (last && !big) { if (!(cond)) c.viol(enc + "/" + KN[o.kind], cls, {"in_history"}, d); } } while (0)
     try { switch (o.kind) {
       case LOAD: si.a.reset(new Aut()); loadFixed(*si.a, o.m); si.m = fixedAut(o.m); { ref::TA v = numModel(*si.a); sem(ref::equalLang(v, si.m), "loaded_language_wrong", "dump " + v.str(N)); } break;
       case LOADINTO: if (!si.a) { en = false; break; } { ref::TA e = ref::plainUnion(si.m, fixedAut(o.m)); if (e.states().size() > 8) { en = false; break; } loadFixed(*si.a, o.m); ref::TA v = numModel(*si.a); si.m = e; sem(ref::equalLang(v, e), "loaded_language_wrong", "automaton reads " + v.str(N) + " expected language of " + e.str(N)); } break;
@@ -192,7 +194,9 @@ template <class Aut> static hist::StepResult run(const std::vector<int>& h, Ctx&
       case SETFINAL: if (!si.a) { en = false; break; } { size_t q = SETFINAL_STATE[o.m]; if (!si.m.states().count(q)) { en = false; break; } si.a->SetStateFinal(q); si.m.finals.insert(q); } break;
       case UNION: if (!si.a || !sj.a) { en = false; break; } { ref::TA a = si.m, b = sj.m; ref::TA v = store(sk, Aut::Union(*si.a, *sj.a)); sem(ref::equalLang(v, ref::disjointUnion(a, b)), "language_not_the_union", "result " + v.str(N)); } break;
       case UDS: if (!si.a || !sj.a) { en = false; break; } { ref::TA a = si.m, b = sj.m; bool disj = true; for (auto q : a.states()) if (b.states().count(q)) disj = false; if (!disj) { en = false; break; } ref::TA v = store(sk, Aut::UnionDisjointStates(*si.a, *sj.a)); sem(ref::equalLang(v, ref::plainUnion(a, b)), "language_not_the_union", "result " + v.str(N)); } break;
-      case ISECT: if (!si.a || !sj.a) { en = false; break; } { ref::TA a = si.m, b = sj.m; ref::TA v = store(sk, Aut::Intersection(*si.a, *sj.a)); sem(ref::equalLang(v, ref::product(a, b)), "language_not_the_intersection", "result " + v.str(N)); } break;
+      case ISECT: if (!si.a || !sj.a) { en = false; break; } { ref::TA a = si.m, b = sj.m; ref::TA pr = ref::product(a, b); { auto u = ref::useful(pr); ref::TA t; for (auto& r : pr.rules) if (ref::usefulRule(r, u)) t.rules.insert(r); for (auto f : pr.finals) if (u.count(f)) t.finals.insert(f); pr = t; }   // the reference product, trimmed (same language): two 8-state operands give 64 product states, beyond the 62 the reference inclusion can index
+        if (pr.states().size() > 40) { en = false; break; }   // outside the explored world
+        ref::TA v = store(sk, Aut::Intersection(*si.a, *sj.a)); sem(ref::equalLang(v, pr), "language_not_the_intersection", "result " + v.str(N)); } break;
       case UNREACH: if (!si.a) { en = false; break; } { ref::TA a = si.m; ref::TA v = store(sk, si.a->RemoveUnreachableStates()); sem(ref::equalLang(v, a), "language_changed", "result " + v.str(N)); } break;
       case USELESS: if (!si.a) { en = false; break; } { ref::TA a = si.m; ref::TA v = store(sk, si.a->RemoveUselessStates()); sem(ref::equalLang(v, a), "language_changed", "result " + v.str(N)); auto u = ref::useful(v); bool left = false; for (auto q : v.states()) if (!u.count(q)) left = true; sem(!left, "useless_state_left", "result " + v.str(N)); } break;
     } } catch (std::exception& e) { if (last) c.viol(enc + "/" + KN[o.kind], "exception", {"in_history"}, e.what()); }
@@ -208,6 +212,7 @@ template <class Aut> static hist::StepResult run(const std::vector<int>& h, Ctx&
   R.key = keyOf(s); if (h.empty()) R.prefixKey = ""; { std::set<const void*> seen; for (int i = 0; i < S; i++) if (s[i].a && !seen.insert(tablePtr(*s[i].a)).second) R.sharing = true; }
   return R;
 }
+#undef sem
 static int findOp(K kind, int i, int j, int k, int m) { for (size_t x = 0; x < menu().size(); x++) { const Op& o = menu()[x]; if (o.kind == kind && o.i == i && o.j == j && o.k == k && o.m == m) return (int)x; } abort(); }
 // `seeded`: start the search from a non-initial state in which two handles share one transition table
 //   1: s0=load(M0); s1=copy(s0)      2: s0=load(M3); s1=copy(s0); s2=load(M1)
